@@ -8,6 +8,7 @@ import (
 
 	"google.golang.org/grpc"
 	"google.golang.org/grpc/metadata"
+	"google.golang.org/grpc/status"
 	"google.golang.org/protobuf/proto"
 
 	"github.com/smart-core-os/sc-golang/internal/simhook"
@@ -15,7 +16,8 @@ import (
 
 // ClientServerStream combines both a grpc.ServerStream and grpc.ClientStream
 type ClientServerStream struct {
-	ctx context.Context
+	ctx    context.Context
+	parent context.Context // the context the stream was created with: done only if the caller cancelled or timed out
 
 	header  metadata.MD
 	headerM sync.Mutex    // guards closing of headerC
@@ -33,6 +35,7 @@ func NewClientServerStream(ctx context.Context) *ClientServerStream {
 	newCtx, closed := context.WithCancel(ctx)
 	return &ClientServerStream{
 		ctx:        newCtx,
+		parent:     ctx,
 		closed:     closed,
 		headerC:    make(chan struct{}),
 		serverSend: make(chan any),
@@ -52,6 +55,11 @@ func (s *ClientServerStream) Close(err error) {
 	s.headerM.Unlock()
 
 	simhook.Yield("wrap.close.status")
+	// like gRPC, a call whose context ended before the handler returned ends with that cancellation or deadline
+	// expiry, whatever the handler then returned (typically the error of the stream operation that was interrupted)
+	if ctxErr := s.parent.Err(); ctxErr != nil {
+		err = status.FromContextError(ctxErr).Err()
+	}
 	s.closeM.Lock()
 	s.closeErr = err
 	s.closeM.Unlock()
